@@ -28,7 +28,11 @@ func main() {
 			args = append(args, checks.S(a))
 		}
 	}
-	outs := checks.RunFamily(p, []checks.Config{{Name: "probe", Func: os.Args[3], Args: args}}, checks.RunOpts{Pkg: os.Args[1], Inits: []string{os.Args[1]}, PanicObl: true, Workers: 1})
+	inits := []string{os.Args[1]}
+	if e := os.Getenv("PROBE_INITS"); e != "" {
+		inits = strings.Split(e, ",")
+	}
+	outs := checks.RunFamily(p, []checks.Config{{Name: "probe", Func: os.Args[3], Args: args}}, checks.RunOpts{Pkg: os.Args[1], Inits: inits, PanicObl: os.Getenv("PROBE_NOPANIC") == "", Workers: 1})
 	o := outs[0]
 	fmt.Println("err:", o.Err, "instrs", o.Instrs, "forks", o.Forks, "queries", o.Queries, "solver_s", o.SolverS)
 	for _, ob := range o.Obls {
